@@ -87,7 +87,7 @@ PROPS = {
     },
     "C07": {
         "level": "exploration",
-        "rule": "run = seeded Boolean circuit (and/or/xor/add with carry/sat_add/sub/gt/geq) x vector width {1,16,32,256} (plus 3 and 8, which exist in the semi-honest mode only) x operand widths 1..120 incl. unequal widths x semi-honest/DZKP-malicious x "
+        "rule": "run = seeded Boolean circuit (and/or/xor/add with carry/sat_add/sub/gt/geq/integer multiplication with a signed second operand) x vector width {1,16,32,256} (plus 3 and 8, which exist in the semi-honest mode only) x operand widths 1..120 incl. unequal widths x semi-honest/DZKP-malicious x "
                 "batched/single validation; one third of the runs enumerate ALL operand pairs of a width <= 4 across records and lanes, the rest use boundary {0,1,max,max-1,2^k,2^k-1} and random operands; "
                 "every run executes under a seeded schedule policy and seeded gateway knobs; non-trivial iff >=1 multi-choice decision; distinct by (shape, schedule digest). "
                 "c07_ba: multiplexer (select) and saturating subtraction on Boolean-array shares of width {3,5,8,16,20,32,64} (all operand pairs for sat_sub at width <= 5; equal / neighbouring operands biased), 1..700 records. "
@@ -331,7 +331,7 @@ MANIFEST_TEXT = {
     "C07": {
         "text": "Seeded exploration of the real interactive Boolean building blocks on three simulated helpers in semi-honest and DZKP-malicious mode, with record- and bit-parallelism scheduled by the seed. Oracle: big-integer plaintext function of the operands (incl. carry, saturation, truncation/zero-extension of the second operand) and consistency of the three output sharings. Widths <= 4 are enumerated exhaustively; larger widths use boundary and random operands. Sampling beyond that.",
         "design_ref": "DESIGN.md section 4, C07",
-        "note": "covers multiplication (AND; field multiplication in MAC mode), multiplexer, OR, XOR, add-with-carry, saturating add, subtract, saturating subtract, both comparisons, share conversion to Fp25519 and the pseudonym function; bucket aggregation (directly, incl. multi-call histories, and end-to-end in the C01 scenarios); boolean_ops::multiplication::integer_mul is private dead code (#[allow(dead_code)]) and is not reached",
+        "note": "covers multiplication (AND; field multiplication in MAC mode), multiplexer, OR, XOR, add-with-carry, saturating add, subtract, saturating subtract, both comparisons, share conversion to Fp25519 and the pseudonym function; bucket aggregation (directly, incl. multi-call histories, and end-to-end in the C01 scenarios); boolean_ops::multiplication::integer_mul (private and unused in the crate) is reached through hook H7",
         "technique": "deterministic simulation: seeded schedule + operand search over the real circuits with a big-integer reference",
     },
     "C05": {
